@@ -44,6 +44,7 @@ type PluginConf struct {
 	KeyPEM      string            `json:"key_pem,omitempty"`
 	ExitMarker  string            `json:"exit_marker,omitempty"`
 	ExitDelayMs int               `json:"exit_delay_ms,omitempty"`
+	Impostor    string            `json:"impostor,omitempty"` // hand-made AutoMTLS plugin, see cmd/vplugin/impostor.go
 }
 
 // HostConf is the client side of a cell.
@@ -273,7 +274,8 @@ func RunCell(c *Cell) (res *Result) {
 	}
 	cur := func() int { return len(clients) - 1 }
 	for _, op := range c.Ops {
-		name, arg, _ := strings.Cut(op, ":")
+		bare, _, _ := strings.Cut(op, "!") // "!<expectation>" suffixes are for the driver
+		name, arg, _ := strings.Cut(bare, ":")
 		t0 := time.Now()
 		switch name {
 		case "new": // create the first client according to the launch method
@@ -412,6 +414,43 @@ func RunCell(c *Cell) (res *Result) {
 			clients = append(clients, plugin.NewClient(cfg))
 			stores, protos = append(stores, nil), append(protos, nil)
 			record(op, t0, nil, string(rc.Protocol))
+		case "newimp": // a further AutoMTLS client whose plugin is the hand-made impostor in mode arg
+			pcopy := c.Plugin
+			pcopy.Impostor = arg
+			cmd := exec.Command(c.VPlugin)
+			pc, _ := json.Marshal(pcopy)
+			cmd.Env = append(cmd.Env, "VP_CONF="+string(pc), "TMPDIR="+pluginDir, "PATH="+os.Getenv("PATH"))
+			lastCmd = cmd
+			cfg := mkConfig()
+			cfg.Cmd = cmd
+			clients = append(clients, plugin.NewClient(cfg))
+			stores, protos = append(stores, nil), append(protos, nil)
+			record(op, t0, nil, "")
+		case "reattachlive": // like reattach, but the recorded pid belongs to a live bystander process
+			i := cur()
+			if arg != "" {
+				i, _ = strconv.Atoi(arg)
+			}
+			rc := clients[i].ReattachConfig()
+			if rc == nil {
+				record(op, t0, errors.New("nil ReattachConfig"), "")
+				break
+			}
+			by := exec.Command("sleep", "60")
+			by.SysProcAttr = &syscall.SysProcAttr{Setpgid: false}
+			if err := by.Start(); err != nil {
+				record(op, t0, err, "")
+				break
+			}
+			defer func() { by.Process.Kill(); by.Wait() }()
+			cp := *rc
+			cp.Pid = by.Process.Pid
+			cfg := mkConfig()
+			cfg.Reattach = &cp
+			cfg.AutoMTLS = false
+			clients = append(clients, plugin.NewClient(cfg))
+			stores, protos = append(stores, nil), append(protos, nil)
+			record(op, t0, nil, string(rc.Protocol))
 		case "testserve": // an in-process plugin.Serve in test mode (arg = protocol)
 			ctx, cancel := context.WithCancel(context.Background())
 			testCancel = cancel
@@ -544,6 +583,16 @@ func RunCell(c *Cell) (res *Result) {
 			}
 			cl := plugin.NewClient(cfg)
 			cl.Start()
+			switch arg {
+			case "reuse": // a second client built from the very same *ClientConfig
+				cl.Kill()
+				res.Env = nil
+				cl = plugin.NewClient(cfg)
+				cl.Start()
+			case "retry": // the same client started again after the runner could not be created
+				res.Env = nil
+				cl.Start()
+			}
 			cl.Kill()
 			record(op, t0, nil, "")
 		}
